@@ -641,6 +641,7 @@ func runC09(c *CaseCtx) *CaseResult {
 	cc.EvictEvery = []int{0, 1, 2}[c.Case/2%3]
 	cc.DrainAtEnd = c.Case%3 != 2
 	cc.DrainedIsOneSlab = true
+	cc.Prof.BlindDispose = true
 	if c.Case%5 == 4 {
 		cc.BatchStart = []int{2, 3, 4, 5, 6, 7, 9, 12, 40, 150}[r.Intn(10)]
 	}
@@ -712,6 +713,7 @@ func runC03(c *CaseCtx) *CaseResult {
 	cc.Prof.MaxDepth = 3
 	cc.Prof.Composite = c.Case%4 == 0
 	cc.Prof.CompositeFlip = cc.Prof.Composite
+	cc.Prof.BlindDispose = true
 	ops := 320
 	if c.Tier == "thorough" {
 		ops = 500 + r.Intn(1000)
